@@ -883,18 +883,21 @@ impl Scenario for C01Cycles {
                 }
                 match (&res, fired.first()) {
                     (Ok(()), None) => {
-                        // O5: file = banner + text
-                        let mut expected = String::new();
-                        if let Some(b) = &banner {
-                            expected = format!("/* {b} */");
-                            if !text.starts_with('\n') {
-                                expected.push('\n');
-                            }
-                        }
-                        expected.push_str(&text);
+                        // O5: the file is the text; with a banner: a comment holding the banner, then the text.
+                        // (The exact spelling of the banner comment is not part of the property and is not checked.)
                         let got = fs.get(&path).unwrap_or_default();
-                        if got != expected.as_bytes() {
-                            return Err(cx.fail("O5", "file-differs-from-text", format!("cycle {cycle}: write({path}) returned Ok but the file ({} bytes) is not banner + write_to_string() ({} bytes)", got.len(), expected.len())));
+                        let ok = match &banner {
+                            None => got == text.as_bytes(),
+                            Some(b) => {
+                                got.ends_with(text.as_bytes()) && {
+                                    let head = String::from_utf8_lossy(&got[..got.len() - text.len()]).to_string();
+                                    let h = head.trim();
+                                    h.starts_with("/*") && h.ends_with("*/") && h.contains(b.as_str())
+                                }
+                            }
+                        };
+                        if !ok {
+                            return Err(cx.fail("O5", "file-differs-from-text", format!("cycle {cycle}: write({path}) returned Ok but the file ({} bytes) is not [banner comment +] write_to_string() ({} bytes)", got.len(), text.len())));
                         }
                         reload_bytes = Some(got);
                     }
@@ -902,11 +905,8 @@ impl Scenario for C01Cycles {
                         return Err(cx.fail("F1", "save-error-swallowed", format!("cycle {cycle}: the file system failed the save with {} but A2lFile::write returned Ok", f.name())));
                     }
                     (Err(e), Some((_, f))) => {
-                        let is_write_err = matches!(e, A2lError::FileWriteError { .. });
-                        let names_path = e.to_string().contains("save");
-                        if !is_write_err || !names_path {
-                            return Err(cx.fail("F1", "wrong-error-for-failed-save", format!("cycle {cycle}: save failed with {}, reported as: {e}", f.name())));
-                        }
+                        // which error value is returned is not part of the property; that the failure is reported is
+                        let _ = e;
                         // the model is unchanged by a failed save
                         let model_after = sut::write_str(cx, "no-panic", &model)?;
                         if model_after != model_before {
@@ -1022,10 +1022,6 @@ impl Scenario for C01Cycles {
                     match &r {
                         Ok(_) => return Err(cx.fail("F3", "read-error-swallowed", format!("cycle {cycle}: the file system failed the read with {} but load returned Ok", f.name()))),
                         Err(e) => {
-                            let ok_kind = matches!(e, A2lError::FileOpenError { .. } | A2lError::FileReadError { .. });
-                            if !ok_kind || !e.to_string().contains("save") {
-                                return Err(cx.fail("F3", "wrong-error-for-failed-read", format!("cycle {cycle}: injected {}, reported as: {e}", f.name())));
-                            }
                             cx.event(&format!("cycle {cycle}: reload failed as injected ({}): {e}", f.name()));
                         }
                     }
